@@ -472,6 +472,16 @@ theorem world_tx_every_deposit_respects_the_limit {w w' : WState} {tx : List TOp
   intro hact hminted
   exact world_deposit_below_limit ho hact hminted
 
+/-- **world_tx_every_withdrawal_keeps_deposits_above_debt**: and every withdrawal of a committed transaction — the owner's, a
+    liquidator's or the risk admin's inside a receivership bracket — left its bank with total deposits at least total debt -/
+theorem world_tx_every_withdrawal_keeps_deposits_above_debt {w w' : WState} {tx : List TOp} (h : w.runTx tx = some w')
+    {i ai bi signer : Nat} {amount vault : Int} {all : Bool} (hi : tx[i]? = some (.ix (.withdraw ai bi signer amount all vault))) :
+    ∃ (wi : WState) (a : AcctV) (b : WBank) (o : Out), wi.accts[ai]? = some a ∧ wi.banks[bi]? = some b ∧
+      World.withdraw (wi.ctx a b signer b.v.liquidityVault vault) amount all = .ok o ∧
+      ∃ ta tl, assetAmount o.books o.books.sa = .ok ta ∧ liabAmount o.books o.books.sl = .ok tl ∧ tl ≤ ta := by
+  obtain ⟨wi, a, b, o, ha, hb, ho⟩ := tx_withdraw_ran h hi
+  exact ⟨wi, a, b, o, ha, hb, ho, world_withdraw_keeps_deposits_above_debt ho⟩
+
 end whole_instructions
 
 end Mfi.Props.C17
